@@ -14,6 +14,8 @@ to invent argument values; fields without resolver are of type String.
 """
 
 SCALARS = ["Int", "Float", "String", "Boolean", "ID"]
+INTROSPECTION_NAMES = ["__Schema", "__Type", "__Field", "__InputValue", "__EnumValue", "__Directive",
+                       "__TypeKind", "__DirectiveLocation"]
 
 FIELD_NAMES = ["id", "name", "snake_case", "two_words_here", "camelCase", "value", "x_y",
                "other_field", "count", "_lead", "trail_", "a_b_c", "item", "node_ref"]
@@ -319,8 +321,23 @@ def gen_steps(rng, dump, max_len=6):
             st = {"op": "clone", "on": on}
         elif k < 0.45:
             rate = rng.choice([0.05, 0.1, 0.25])
+            hidden = _pick(rng, [t for t in types if t != "Query" or rng.random() < 0.05], rate)
+            mode = rng.random()
+            if mode < 0.25:
+                # deny-list that also names specified scalars / introspection types (which the
+                # transform must never hide: _is_type_visible short-circuits on them)
+                hidden = hidden + rng.sample(SCALARS, rng.randint(1, 3)) + \
+                    ([rng.choice(INTROSPECTION_NAMES)] if rng.random() < 0.5 else [])
+            elif mode < 0.4:
+                # allow-list over all type names: everything not listed is rejected by the predicate
+                allow = {t for t in types + SCALARS if rng.random() < 0.85} | {"Query"}
+                hidden = [t for t in types + SCALARS + INTROSPECTION_NAMES if t not in allow]
+            only_protected = mode < 0.4 and rng.random() < 0.3
+            if only_protected:
+                hidden = [t for t in hidden if t in SCALARS or t in INTROSPECTION_NAMES]
+                rate = 0.0
             st = {"op": "vis", "on": on,
-                  "types": _pick(rng, [t for t in types if t != "Query" or rng.random() < 0.05], rate),
+                  "types": hidden,
                   "fields": _pick(rng, fields, rate),
                   "input_fields": _pick(rng, in_fields, rate),
                   "args": _pick(rng, args, rate / 2),
